@@ -348,7 +348,8 @@ def render_feature(feature, noise=None, language_header=False):
                 q = u'"""' if not s.get("q") else u"'''"
                 qn = out._next()
                 qind = indent + 2 if qn is None else qn % 9
-                out.lines.append(u" " * qind + q)
+                # invisible blanks / a tab after the opening quotes are no part of the indentation
+                out.lines.append(u" " * qind + q + (u"" if qn is None else (u"", u"  ", u"\t")[qn % 3]))
                 fact["text_line"] = len(out.lines)
                 for tl in s["text"].split(u"\n"):
                     out.lines.append((u" " * qind + tl) if tl else u"")
